@@ -15,8 +15,8 @@ import (
 	"path/filepath"
 	"runtime"
 	"strconv"
-	"sync/atomic"
 	"strings"
+	"sync/atomic"
 	"testing"
 	"testing/synctest"
 	"time"
